@@ -5,6 +5,8 @@ package main
 // parameters bound at their call sites (constants, opts.JSON, the caller's own binding).
 
 import (
+	"go/token"
+	"os"
 	"fmt"
 	"sort"
 	"strings"
@@ -115,8 +117,32 @@ func (o *ou1) eval(fn *ssa.Function, binds map[*ssa.Parameter]tri) *ou1Summary {
 			if !ok {
 				continue
 			}
-			if _, isDefer := call.(*ssa.Defer); isDefer {
-				// deferred closures (unlock) carry no output
+			if df, isDefer := call.(*ssa.Defer); isDefer {
+				// a deferred call runs at every exit reachable from here: whatever it may write is added to those exits
+				var dfn *ssa.Function
+				if mc, ok := resolve(df.Call.Value).(*ssa.MakeClosure); ok {
+					dfn, _ = mc.Fn.(*ssa.Function)
+				} else if cal := df.Call.StaticCallee(); cal != nil && c.InModule(cal) && cal.Blocks != nil {
+					dfn = cal
+				}
+				if dfn != nil {
+					sub := o.eval(dfn, binds)
+					if sub.maxJ > 0 || len(sub.texts) > 0 {
+						after := reach(b, removed, nil)
+						for _, r := range returnsOf(fn) {
+							if after[r.Block()] && live[r.Block()] {
+								// may run or not (conditions inside the closure): counts towards the maximum only
+								s.texts = append(s.texts, sub.texts...)
+								s.jsonSites = append(s.jsonSites, sub.jsonSites...)
+								if sub.maxJ >= inf {
+									wMax[r.Block().Index] = inf
+								} else if wMax[r.Block().Index] < inf {
+									wMax[r.Block().Index] += sub.maxJ
+								}
+							}
+						}
+					}
+				}
 				continue
 			}
 			cc := call.Common()
@@ -253,6 +279,9 @@ func (o *ou1) eval(fn *ssa.Function, binds map[*ssa.Parameter]tri) *ou1Summary {
 		if d, ok := dist[b]; ok && d < s.minJ {
 			s.minJ = d
 		}
+		if os.Getenv("DBGOU1") != "" {
+			fmt.Fprintf(os.Stderr, "DBG %s succ block %d dist=%v pos=%s\n", c.Name(fn), b.Index, dist[b], c.Pos(b.Instrs[len(b.Instrs)-1].Pos()))
+		}
 	}
 	if !s.canSucceed {
 		s.minJ = 0
@@ -288,9 +317,52 @@ func (c *Ctx) definitelyFails(fn *ssa.Function, r *ssa.Return) bool {
 	}
 	// the returned value itself was tested non-nil on the way here
 	rv := strip(returnedValue(r, len(r.Results)-1))
-	tested := edgesWhere(fn, func(a Atom, holds bool) bool { return a.Kind == "nil" && !holds && strip(a.X) == rv })
+	tested := edgesWhere(fn, func(a Atom, holds bool) bool {
+		return a.Kind == "nil" && !holds && len(a.Env) == 0 && (strip(a.X) == rv || holdsValue(rv, strip(a.X)))
+	})
 	if len(tested) > 0 && mustPassEdges(fn, r.Block(), tested) {
 		return true
+	}
+	// a named result: the value tested and the value returned are two loads of the same result variable, with no
+	// assignment to it in between
+	if ld, ok := rv.(*ssa.UnOp); ok && ld.Op == token.MUL {
+		if cell := cellOf(ld.X); cell != nil {
+			var stores []*ssa.Store
+			for _, st := range cellStores(cell) {
+				if st.Parent() != fn {
+					continue
+				}
+				// `return err` on a named result stores the variable to itself
+				if sl, ok := strip(st.Val).(*ssa.UnOp); ok && sl.Op == token.MUL && cellOf(sl.X) == cell {
+					continue
+				}
+				stores = append(stores, st)
+			}
+			sameCell := map[edge]bool{}
+			for _, bf := range directFacts(fn) {
+				if bf.A.Kind != "nil" || bf.Holds {
+					continue
+				}
+				tl, ok := strip(bf.A.X).(*ssa.UnOp)
+				if !ok || tl.Op != token.MUL || cellOf(tl.X) != cell {
+					continue
+				}
+				// no store to the variable between the test's outcome and the return
+				region := reach(bf.E.To(), nil, nil)
+				clean := true
+				for _, st := range stores {
+					if region[st.Block()] && reach(st.Block(), nil, nil)[r.Block()] {
+						clean = false
+					}
+				}
+				if clean {
+					sameCell[bf.E] = true
+				}
+			}
+			if len(sameCell) > 0 && mustPassEdges(fn, r.Block(), sameCell) {
+				return true
+			}
+		}
 	}
 	srcs := errorSourceValues(r)
 	if len(srcs) == 0 {
